@@ -108,6 +108,11 @@ def queryObj (E : ErrConsts) (o : Obj) (q : List String) : Obj × String :=
 def updG {α} (P : Params) (io : ItemIO α) (s : Sketch α) (lit : String) : Option (CT (Sketch α)) :=
   (io.parse lit).map (fun x => updateT P io.cmp s x)
 
+/-- a run of updates -/
+def updManyT {α} (P : Params) (c : Cmp α) : Sketch α → List α → CT (Sketch α)
+  | s, [] => CT.ret s
+  | s, x :: t => CT.bind (updateT P c s x) (fun s' => updManyT P c s' t)
+
 /-- `assert_correct_total_weight` at the end of merge: a failing assertion is the observation `throw` -/
 def mergeObs {α} (io : ItemIO α) (s : Sketch α) : String := if s.weightOk then obsSketch io s else "throw"
 
@@ -140,6 +145,17 @@ def opT (P : Params) (objs : List (Nat × Obj)) (w : List String) : CT (List (Na
         | none => CT.ret (objs, "bad-op")
       | none => CT.ret (objs, "bad-op")
     | none => CT.ret (objs, "bad-op")
+  | ["updn", id, cnt, st, sd, md] =>
+    match id.toNat?, cnt.toNat?, st.toNat?, sd.toNat?, md.toNat? with
+    | some id, some cnt, some st, some sd, some md =>
+      if md == 0 then CT.ret (objs, "bad-op") else
+      match get id with
+      | some (.i s) => CT.map (fun s' => (putObj objs id (.i s'), obsSketch intIO s'))
+          (updManyT P intIO.cmp s ((List.range cnt).map (fun j => (((st + j * sd) % md : Nat) : Int))))
+      | some (.d s) => CT.map (fun s' => (putObj objs id (.d s'), obsSketch f64IO s'))
+          (updManyT P f64IO.cmp s ((List.range cnt).map (fun j => ((st + j * sd) % md).toFloat.toBits)))
+      | _ => CT.ret (objs, "bad-op")
+    | _, _, _, _, _ => CT.ret (objs, "bad-op")
   | "merge" :: i :: j :: _ =>
     match i.toNat?, j.toNat? with
     | some i, some j =>
